@@ -28,7 +28,7 @@ META = {
         ],
         "floors": {"quick": {"compiled": 1500, "disagreements_checked": 3000, "distinct_nontrivial": 500},
                    "thorough": {"compiled": 30000, "disagreements_checked": 100000, "distinct_nontrivial": 10000}},
-        "soft_s": {"quick": 150, "thorough": 1500},
+        "soft_s": {"quick": 600, "thorough": 2400},
     },
     "C02": {
         "level": "translation_validation",
@@ -39,7 +39,7 @@ META = {
             "reference value = SimpleEvaluator on the instantiated source context"],
         "floors": {"quick": {"compiled": 1000, "disagreements_checked": 5000, "messages": 20000, "distinct_nontrivial": 300},
                    "thorough": {"compiled": 20000, "disagreements_checked": 150000, "messages": 500000, "distinct_nontrivial": 8000}},
-        "soft_s": {"quick": 150, "thorough": 1500},
+        "soft_s": {"quick": 600, "thorough": 2400},
     },
 }
 
@@ -443,7 +443,7 @@ META["C19"] = {
                          "distinct_nontrivial": 2500},
                "thorough": {"plaintext_joins_compared": 60000, "compiled": 600, "compiled_executions": 1000, "three_party_executions": 1000,
                             "distinct_nontrivial": 50000}},
-    "soft_s": {"quick": 240, "thorough": 2400},
+    "soft_s": {"quick": 600, "thorough": 3000},
 }
 
 
@@ -462,7 +462,7 @@ META["C20"] = {
     ],
     "floors": {"quick": {"points_checked": 100000, "compiled": 15, "compiled_points_checked": 900, "distinct_nontrivial": 60},
                "thorough": {"points_checked": 2000000, "compiled": 80, "compiled_points_checked": 5000, "distinct_nontrivial": 600}},
-    "soft_s": {"quick": 240, "thorough": 2400},
+    "soft_s": {"quick": 600, "thorough": 3000},
 }
 
 
@@ -519,7 +519,7 @@ META["C03"] = {
                          "sampled_executions": 80000, "distinct_nontrivial": 150},
                "thorough": {"executions": 20000000, "assignment_pairs_compared": 8000, "tapes_enumerated": 20000000, "sampled_templates": 80,
                             "sampled_executions": 4000000, "distinct_nontrivial": 3000}},
-    "soft_s": {"quick": 240, "thorough": 2400},
+    "soft_s": {"quick": 600, "thorough": 3000},
 }
 PY_SERVES.append("C03")
 
@@ -571,3 +571,19 @@ for _k, (_t, _tech) in _TEXTS.items():
     if _k in META:
         META[_k]["level_text"] = _t + " Rule: " + META[_k]["rule"]
         META[_k]["technique"] = _tech
+
+
+def _apply_floor_overrides():
+    """config/floors.json holds calibrated event floors (half of what a run on the unchanged tree observes);
+    written by tools/calibrate_floors.py, never at check time."""
+    import json
+    p = os.path.join(os.path.dirname(os.path.abspath(__file__)), "..", "config", "floors.json")
+    if not os.path.exists(p):
+        return
+    for pid, tiers in json.load(open(p)).items():
+        if pid in META:
+            for tier, fl in tiers.items():
+                META[pid].setdefault("floors", {})[tier] = fl
+
+
+_apply_floor_overrides()
